@@ -1,58 +1,81 @@
 /-
-  C10, extension (Svgdx/Proofs/SchedLoop.lean, SchedRefine.lean): the CONCRETE retry loop of the control
-  skeleton refines the abstract scheduler whose order independence is proved in Props/C10.lean.
+  C10, extension (Svgdx/Proofs/SchedLoop.lean, SchedRefine.lean, SchedTame.lean): the CONCRETE retry loop of
+  the control skeleton refines the abstract scheduler whose order independence is proved in Props/C10.lean.
    * `Svgdx.SchedLoop.processNodes_sim` (fully proved, generic): if every tag of a sibling list behaves
      like its abstract item (`LeafSpec`: success registers exactly (id, value) and moves the change
      counter, failure registers nothing and is neither a limit nor a fuel error), then `processNodes`
      succeeds iff `Sched.run` does, with the same element table, and otherwise ends in MultiError. The
      concrete loop's extra stopping rules are accounted for: the futile-retry test fires only when the
      abstract loop would make one more pass without progress, the idle-pass budget is never reached.
-   * the three theorems below instantiate it for documents of leaf elements with distinct literal ids
-     under the identity evaluator. They are named `_partial`: the per-element side condition `Tame`
-     contains three SEMANTIC hypotheses about the geometry pipeline of one element (it does not read the
-     previous element, raises no expression-depth error, and a result has a box in every context and
-     renders) which are not derived from the element's syntax here; the closed instances (`decide
-     +kernel`) show the conclusions on concrete documents: three rects referring to each other come out
-     with the same geometry in two orders and agree with the abstract run; with the last one missing
-     both orders end in MultiError.
+   * the three theorems below instantiate it for documents satisfying the DECIDABLE condition `plainB`
+     (leaf elements rect / circle / ellipse / box with unique attribute keys, no classes, a literal id, no
+     `clip-path` / `text` / `surround` / `inside` / `start` attribute, no `^` in any attribute value;
+     pairwise distinct ids), under the identity evaluator. From `plainB` alone are derived
+     (`Svgdx.SchedRefine.tame_of_syn_res`, using the frame theorems of Proofs/PassThrough.lean): dispatch to
+     `genOther`, the monotonicity hypothesis of the scheduler, and for every result of the pipeline - the id
+     is kept, the element is not a use / reuse and has no clip-path, its box is `e'.bbox` in EVERY context
+     (`bb_shape`), and its shape events are produced.
+     They are still named `_partial`: the residue `TameRes` (three SEMANTIC facts about the geometry pipeline
+     of one element) is assumed, not derived from `plainB`:
+       `prevFree`   - the outcome does not depend on the previous element (true because no attribute value
+                      contains `^`; the proof needs the invariant "no `^` in any attribute value" carried
+                      through every stage of `resolve_position` - not done);
+       `noDepthErr` - the geometry pipeline does not raise the expression evaluator's depth error (no stage
+                      produces it; the stage-by-stage proof is started in SchedTame.lean: `NDe`, `num_nd`,
+                      `splitRelspec_nd` - not finished);
+       `boxOk`      - a resolved element has a computable box (`e'.bbox` is not an error). This one is NOT
+                      a consequence of `plainB`: `bbox_raw` fails on a coordinate that is not a number and
+                      contains `#`, `$` or `^` (e.g. `x="#5"`, which `extract_elref` does not take for a
+                      reference), and `genOther` has by then REGISTERED the element - a failing tag that
+                      leaves a registration behind, which the abstract scheduler does not model.
+     The closed instances (`decide +kernel`) show the conclusions on concrete documents satisfying `plainB`.
   Events and bounding box are not covered (only success, the element table and the error kind).
 -/
-import Svgdx.Proofs.SchedRefine
+import Svgdx.Proofs.SchedTame
 
 namespace Svgdx.Props.C10x
 open Svgdx Ctl SchedRefine
 variable {ρ : Type}
 
-theorem concrete_refines_abstract_partial {ev : Evalr ρ} (hev : IdEval ev) {Shape : Elem → Prop} {ks : Nodes}
-    (hp : Plain Shape ks) {st : St ρ} (hst : Init st) (fuel : Nat) (hf : 2 * ks.toList.length + 5 < fuel) :
+theorem concrete_refines_abstract_partial {ev : Evalr ρ} (hev : IdEval ev) {ks : Nodes}
+    (hp : plainB ks = true) (hres : ∀ n ∈ ks.toList, TameRes (nodeElem n))
+    {st : St ρ} (hst : Init st) (fuel : Nat) (hf : 2 * ks.toList.length + 5 < fuel) :
     match Sched.run (items (docIds ks) ks) with
     | some env => (∃ r, (processNodes ev fuel st ks).2 = .ok r) ∧ (processNodes ev fuel st ks).1.geo.elems = env
     | none => ∃ idxs, (processNodes ev fuel st ks).2 = .error (.multi idxs) :=
-  concrete_refines_abstract hev hp hst fuel hf
+  concrete_refines_abstract hev (plain_of_plainB hp hres) hst fuel hf
 
-theorem sibling_order_irrelevant_partial {ev : Evalr ρ} (hev : IdEval ev) {Shape : Elem → Prop} {ks ks' : Nodes}
-    (hp : Plain Shape ks) (hperm : ks.toList.Perm ks'.toList) {st st' : St ρ} (hst : Init st)
+theorem sibling_order_irrelevant_partial {ev : Evalr ρ} (hev : IdEval ev) {ks ks' : Nodes}
+    (hp : plainB ks = true) (hres : ∀ n ∈ ks.toList, TameRes (nodeElem n))
+    (hperm : ks.toList.Perm ks'.toList) {st st' : St ρ} (hst : Init st)
     (hst' : Init st') (fuel fuel' : Nat) (hf : 2 * ks.toList.length + 5 < fuel)
     (hf' : 2 * ks'.toList.length + 5 < fuel') :
     ((∃ r, (processNodes ev fuel st ks).2 = .ok r) ↔ (∃ r, (processNodes ev fuel' st' ks').2 = .ok r)) ∧
     ((∃ r, (processNodes ev fuel st ks).2 = .ok r) → ∀ i,
       (processNodes ev fuel st ks).1.geo.get (.id i) = (processNodes ev fuel' st' ks').1.geo.get (.id i)) :=
-  sibling_order_irrelevant hev hp hperm hst hst' fuel fuel' hf hf'
+  sibling_order_irrelevant hev (plain_of_plainB hp hres) hperm hst hst' fuel fuel' hf hf'
 
-theorem failure_in_every_order_partial {ev : Evalr ρ} (hev : IdEval ev) {Shape : Elem → Prop} {ks : Nodes}
-    (hp : Plain Shape ks) {st : St ρ} (hst : Init st) (fuel : Nat) (hf : 2 * ks.toList.length + 5 < fuel)
+theorem failure_in_every_order_partial {ev : Evalr ρ} (hev : IdEval ev) {ks : Nodes}
+    (hp : plainB ks = true) (hres : ∀ n ∈ ks.toList, TameRes (nodeElem n))
+    {st : St ρ} (hst : Init st) (fuel : Nat) (hf : 2 * ks.toList.length + 5 < fuel)
     (hfail : ¬ ∃ r, (processNodes ev fuel st ks).2 = .ok r) :
     (∃ idxs, (processNodes ev fuel st ks).2 = .error (.multi idxs)) ∧
     (∀ (ks' : Nodes) (st' : St ρ) (fuel' : Nat), ks.toList.Perm ks'.toList → Init st' →
       2 * ks'.toList.length + 5 < fuel' → ∃ idxs, (processNodes ev fuel' st' ks').2 = .error (.multi idxs)) ∧
     (∃ n ∈ ks.toList, ∀ env, Sched.Reach (items (docIds ks) ks) env →
       Sched.view env (idOf (nodeElem n)) = none) :=
-  failure_in_every_order hev hp hst fuel hf hfail
+  failure_in_every_order hev (plain_of_plainB hp hres) hst fuel hf hfail
+
+/-- the decidable hypotheses hold of the example documents and elements -/
+example : tameB Example.rA = true ∧ tameB Example.rB = true ∧ tameB Example.rC = true := by decide
+example : plainB Example.doc1 = true ∧ plainB Example.doc2 = true := by decide
 
 end Svgdx.Props.C10x
 
 #print axioms Svgdx.SchedLoop.processNodes_sim
 #print axioms Svgdx.SchedRefine.itemOfElem_monotone
+#print axioms Svgdx.SchedRefine.tame_of_syn_res
+#print axioms Svgdx.SchedRefine.plain_of_plainB
 #print axioms Svgdx.Props.C10x.concrete_refines_abstract_partial
 #print axioms Svgdx.Props.C10x.sibling_order_irrelevant_partial
 #print axioms Svgdx.Props.C10x.failure_in_every_order_partial
